@@ -151,6 +151,9 @@ def run(tier, seed, t0, prop=PROP, n_quick=60, n_thorough=600, opts=None, gen=No
     })
     if extra_cov:
         rep.cov.update(extra_cov(items))
+    if tier == "thorough":
+        from props.common import coqchk
+        rep.cov["coqchk"] = coqchk([props_file])
     return rep.finish(assumptions=["Factorio 2.0 semantics as modelled in coq/Factorio/Circuit.v",
                                    "programs are sampled; inputs and ticks are universally quantified"])
 
